@@ -28,7 +28,7 @@ COMPONENTS = {'real': ['ikesacontroller.py (__init__, close, process_acquire)', 
 ASSUMPTIONS = ['expected policies come from sim/configs.read_conf (written from README / example.yaml, shares no code with configuration.py)',
                'the contents of the CHILD_SA offer (TSi/TSr/SA payloads) are judged at install time through XFRM_MSG_NEWSA, the encrypted '
                'payloads themselves by the wiretap layer']
-EXPECT_REACH = ['startup_checked', 'stop_checked', 'restart_checked', 'acquire_mapped', 'acquire_reused_ike_sa', 'acquire_foreign_index',
+EXPECT_REACH = ['offers_judged', 'startup_checked', 'stop_checked', 'restart_checked', 'acquire_mapped', 'acquire_reused_ike_sa', 'acquire_foreign_index',
                 'leftovers_preloaded', 'newsa_matched_entry', 'stale_sas_gone_checked', 'probe_after_restart_ok']
 TN = {K['XFRM_MSG_NEWSA']: 'NEWSA', K['XFRM_MSG_DELSA']: 'DELSA', K['XFRM_MSG_NEWPOLICY']: 'NEWPOLICY',
       K['XFRM_MSG_FLUSHSA']: 'FLUSHSA', K['XFRM_MSG_FLUSHPOLICY']: 'FLUSHPOLICY'}
@@ -80,6 +80,8 @@ class PolicyOracle:
         self.cur = None
         self.stale = []           # (node, keys, deadline)
         self.newsa_seen = {}
+        self.tap = None
+        self.msg_idx = 0
         world.monitors.append(self)
 
     def _r(self, k, n=1):
@@ -111,10 +113,52 @@ class PolicyOracle:
                     'others_readable': any(s.queue for s in node.udp.values()),
                     'timer': timers_due(node) if node.state == 'running' and node.controller else False}
 
+    def judge_offers(self):
+        """Every TSi / TSr a daemon puts into a CHILD_SA request (read from the protected traffic by the wiretap) lies inside one protect entry
+        of the sending connection, in that entry's mode: what an ACQUIRE (or a rekey) makes the daemon offer never leaves the configuration."""
+        from sim import refike as R
+        from sim.wiretap import ts_subset
+        from checks.c12 import ent_ts
+        tap = self.tap
+        msgs = tap.messages
+        while self.msg_idx < len(msgs):
+            m = msgs[self.msg_idx]
+            self.msg_idx += 1
+            if m['clear'] or m['h']['R'] or m['h']['exch'] not in (R.IKE_AUTH, R.CREATE_CHILD_SA) or m.get('rewritten'):
+                continue
+            node = self.w.nodes.get(m['sender'])
+            if node is None:
+                continue
+            tsi = next((p for p in m['payloads'] if p['type'] == R.P_TSi), None)
+            tsr = next((p for p in m['payloads'] if p['type'] == R.P_TSr), None)
+            if tsi is None or tsr is None:
+                continue
+            try:
+                conn = configs.read_conf(self.conf_of(node)).get((ipaddress.ip_address(m['src']), ipaddress.ip_address(m['dst'])))
+            except Exception:
+                conn = None
+            if conn is None:
+                continue
+            transport = any(p['type'] == R.P_NOTIFY and p['ntype'] == R.N_USE_TRANSPORT_MODE for p in m['payloads'])
+            self._r('offers_judged')
+            ok = any((e['mode'] == 'transport') == transport and all(ts_subset(x, ent_ts(e, 'my')) for x in tsi['selectors'])
+                     and all(ts_subset(y, ent_ts(e, 'peer')) for y in tsr['selectors']) for e in conn['protect'])
+            if not ok:
+                from sim.wiretap import ts_set
+                rekey = any(p['type'] == R.P_NOTIFY and p['ntype'] == R.N_REKEY_SA for p in m['payloads'])
+                return self.viol('offered_selectors_outside_every_entry', {'rekey': rekey, 'exchange': 'IKE_AUTH' if m['h']['exch'] == R.IKE_AUTH else 'CREATE_CHILD_SA'},
+                                 f'{m["sender"]} offered TSi {[ts_set(x) for x in tsi["selectors"]]} / TSr {[ts_set(y) for y in tsr["selectors"]]} '
+                                 f'({"transport" if transport else "tunnel"}), which no protect entry of its connection with {m["dst"]} contains: '
+                                 f'{[(e["mode"], str(e["my_net"]), e["my_port"], str(e["peer_net"]), e["peer_port"], e["ip_proto"]) for e in conn["protect"]]}')
+
     def after_step(self, node, cause):
         w = self.w
         if w.poisoned:
             return
+        if self.tap is not None:
+            self.judge_offers()
+            if w.poisoned:
+                return
         N = node.name
         ck = cause[0] if isinstance(cause, tuple) else cause
         cur, self.cur = self.cur, None
@@ -363,6 +407,8 @@ def run(scenario):
         ctx['cov'] = workload.Coverage(w)
         workload.QuietTail(w)
         orc = ctx['oracle'] = PolicyOracle(w, wire)
+        from sim.wiretap import Wiretap
+        orc.tap = ctx['tap'] = Wiretap(w, check_reencode=False)
         ctx['probes'] = []
 
         def preload(w, op):
